@@ -142,4 +142,19 @@ theorem gcStep_idempotent (s : State) : gcStep (gcStep s).1 = ((gcStep s).1, [])
     congr 1
     simp
 
+theorem lockCount_openBlocks : ∀ (ops : List LockOp) (d : Nat) (k : Nat),
+    openBlocks d ops = some k → lockCount 1 (-1) (d : Int) ops = (k : Int)
+  | [], d, k, h => by simp only [openBlocks, Option.some.injEq] at h; simp [lockCount, h]
+  | .enter :: ops, d, k, h => by
+    simp only [openBlocks] at h
+    have := lockCount_openBlocks ops (d + 1) k h
+    simpa [lockCount] using this
+  | .exit :: ops, 0, k, h => by simp [openBlocks] at h
+  | .exit :: ops, d + 1, k, h => by
+    simp only [openBlocks] at h
+    have := lockCount_openBlocks ops d k h
+    simp only [lockCount]
+    have e : ((d + 1 : Nat) : Int) + -1 = (d : Int) := by omega
+    rw [e]; exact this
+
 end Delb.Gc
